@@ -178,11 +178,13 @@ func (s *Syncer[H]) localHead(ctx context.Context) (H, error) {
 	// pending head is the latest known subjective head and a sync target
 	// if it is empty, no sync is in progress
 	pendHead := s.pending.Head()
-	if !pendHead.IsZero() {
+	// if pending is empty - get the latest stored/synced head;
+	// also if pending lags behind it: a head can enter pending after a running sync has already
+	// stored it and newer ones, and the highest known head must not go backwards then
+	head, err := s.store.Head(ctx)
+	if !pendHead.IsZero() && (err != nil || pendHead.Height() > head.Height()) {
 		return pendHead, nil
 	}
-	// if pending is empty - get the latest stored/synced head
-	head, err := s.store.Head(ctx)
 	if err != nil {
 		return head, fmt.Errorf("local store head: %w", err)
 	}
